@@ -1456,12 +1456,31 @@ def _sortkey_def(sp, value, st, src, fname):
             f"def {lean_name(sp.name)} ({' '.join(params)} : α) : Bool :=\n  {ge(0)}\n")
 
 
+def _committed_text(path):
+    """the COMMITTED version of a generated file (`git show HEAD:<path>`), so that what is inlined does not depend
+    on what a previous run - possibly on another source tree - left on disk; the file on disk only if git is not
+    available or the file is not committed yet"""
+    import subprocess
+    path = Path(path)
+    try:
+        rel = path.resolve().relative_to(core.VERIF.resolve())
+        r = subprocess.run(["git", "show", f"HEAD:{rel.as_posix()}"], cwd=str(core.VERIF), capture_output=True,
+                           text=True, timeout=30)
+        if r.returncode == 0 and r.stdout:
+            return r.stdout
+    except Exception:
+        pass
+    try:
+        return path.read_text()
+    except OSError:
+        return None
+
+
 def _old_params(path):
     """python names of the parameters of every definition in the committed generated file: the names the GenTie
     theorems apply with named arguments; any OTHER local name of the source may be inlined (LocalDefs)"""
-    try:
-        text = Path(path).read_text()
-    except OSError:
+    text = _committed_text(path)
+    if text is None:
         return None
     out = {}
     for m in re.finditer(r"parameters: (.*?) -/\ndef (\S+)", text, re.S):
@@ -1610,10 +1629,24 @@ def translate_formulas(src: str, fname: str, func: str, specs, namespace: str, o
 
 # ---------------------------------------------------------------------------
 def _write(path: Path, text: str) -> bool:
+    """atomic (temp file + os.replace) and only when the content changes (an unchanged file keeps its mtime, so
+    nothing is rebuilt and a concurrent reader never sees a half-written file)"""
+    import os
+    import tempfile
     path.parent.mkdir(parents=True, exist_ok=True)
     if path.exists() and path.read_text() == text:
         return False
-    path.write_text(text)
+    fd, tmp = tempfile.mkstemp(dir=str(path.parent), prefix="." + path.name + ".", suffix=".tmp")
+    try:
+        with os.fdopen(fd, "w") as f:
+            f.write(text)
+        os.replace(tmp, path)
+    except BaseException:
+        try:
+            os.unlink(tmp)
+        except OSError:
+            pass
+        raise
     return True
 
 
